@@ -2238,6 +2238,20 @@ func (e *Extractor) extractPreserveLayout(fragments []text.TextFragment, pageWid
 		lines = append(lines, *currentLine)
 	}
 
+	// The page's own width in output columns (never more than maxPageCols) and
+	// the largest run of blank lines bound the padding written below
+	const (
+		maxPageCols   = 10000
+		maxBlankLines = 1000
+	)
+	pageCols := maxPageCols
+	if c := pageWidth / charWidth; c >= 0 && c < maxPageCols {
+		pageCols = int(c)
+	}
+	if pageCols < charsPerLine {
+		pageCols = charsPerLine
+	}
+
 	// Build output with spacing to preserve layout
 	var result strings.Builder
 	var lastLineY float64
@@ -2259,6 +2273,12 @@ func (e *Extractor) extractPreserveLayout(fragments []text.TextFragment, pageWid
 				gapInLines = 1
 			}
 
+			// A gap larger than any page holds lines comes from coordinates far
+			// outside the page; it must not size the output
+			if gapInLines > maxBlankLines {
+				gapInLines = maxBlankLines
+			}
+
 			// Add newlines (1 for normal line break, more for vertical gaps)
 			for i := 0; i < gapInLines; i++ {
 				result.WriteString("\n")
@@ -2276,6 +2296,11 @@ func (e *Extractor) extractPreserveLayout(fragments []text.TextFragment, pageWid
 			targetCol := int(frag.X / charWidth)
 			if targetCol < 0 {
 				targetCol = 0
+			}
+			// Text set beyond the right edge of the page goes to the page's last
+			// column: the padding is bounded by the page, not by the coordinate
+			if targetCol > pageCols {
+				targetCol = pageCols
 			}
 
 			// Add spaces to reach target column
